@@ -146,6 +146,20 @@ Section Refuse.
   Qed.
 End Refuse.
 
+(** the static statement's view of the model (any value of the fact sf_stat) has the same names *)
+Lemma names_unknown_view names F m tbl :
+  (forall cpd row r n, In (cpd, row) (m_stoich m) -> In (r, n) row -> exists row' n', In (cpd, row') tbl /\ In (r, n') row') ->
+  NamesUnknown names F m -> NamesUnknown names F (with_stoich m tbl).
+Proof.
+  intros Hk [H|[H|[H|H]]].
+  - left. exact H.
+  - right. left. exact H.
+  - right. right. left. exact H.
+  - right. right. right. destruct H as (cpd & row & r & n & H1 & H2 & H3).
+    destruct (Hk _ _ _ _ H1 H2) as (row' & n' & H4 & H5). exists cpd, row', r, n'.
+    split; [exact H4|]. split; [exact H5|exact H3].
+Qed.
+
 Theorem unknown_name_refused fsym F m names :
   table_names F m = Some names ->
   ((exists k c a, In (k, c) (m_rxn m) /\ In a (c_args c) /\ ~ In a names /\ ~ In a (map fst (m_der m))) \/
@@ -155,7 +169,9 @@ Theorem unknown_name_refused fsym F m names :
    (exists cpd row r n, In (cpd, row) (m_stoich m) /\ In (r, n) row /\ ~ In r (map fst (m_rxn m)))) ->
   forall eqs, to_symbolic fsym F m <> SymOk eqs.
 Proof.
-  intros Hn HU. unfold to_symbolic. rewrite Hn. apply refused_on. exact HU.
+  intros Hn HU eqs H. apply to_symbolic_inv in H. destruct H as (names' & tbl & En & _ & Hk & H).
+  rewrite Hn in En. injection En as En. subst names'.
+  exact (refused_on fsym names F (with_stoich m tbl) (names_unknown_view names F m tbl Hk HU) eqs H).
 Qed.
 
 (** under the shipped table: a SURROGATE OUTPUT named by a reaction, a converted derived value or a
@@ -181,7 +197,8 @@ Theorem surrogate_output_refused fsym sdiff F m :
 Proof.
   intros HFt HFo Hfresh Huse.
   assert (Hno : forall eqs, to_symbolic fsym F m <> SymOk eqs).
-  { unfold to_symbolic, table_names. rewrite HFt. apply refused_on.
+  { apply (unknown_name_refused fsym F m (base_names m)); [unfold table_names; rewrite HFt; reflexivity|].
+    change (NamesUnknown (base_names m) F m).
     assert (Hk : forall a, In a (surr_outputs m) -> NoKey (base_names m) m a).
     { intros a Ha. destruct (Hfresh a Ha) as [N1 [N2 _]]. split; assumption. }
     destruct Huse as [[k [c [a [H1 [H2 H3]]]]]|[[k [c [a [H1 [H2 [H3 H4]]]]]]|[[cpd [row [r [c [a [H1 [H2 [H3 H4]]]]]]]]|[cpd [row [r [n [H1 [H2 H3]]]]]]]]].
